@@ -88,3 +88,31 @@ def _v22(repo, mod):
     fn = repo.func(EXE, "TestCaseExecutor.execute")
     c = find_node(fn, lambda n: isinstance(n, ast.Call) and norm(n) == "max(1, test_case.size())")
     return replace_node(mod, c, "(test_case.size() or 1)")
+
+
+@variant("C32", "exit-revokes-foreign-ownership", TR, "C32.ownership", "__exit__ stops the tracer whoever owns it (the repaired defect)")
+def _v30(repo, mod):
+    fn = repo.methods(repo.cls(TR, "ExecutionTracer"))["__exit__"]
+    s = find_stmt(fn, lambda s: isinstance(s, ast.If))
+    return replace_node(mod, s.test, "True")
+
+
+@variant("C32", "stop-only-for-the-owner", TR, "C32.ownership", "stop() called by the executor no longer aborts the running thread")
+def _v31(repo, mod):
+    fn = repo.methods(repo.cls(TR, "ExecutionTracer"))["stop"]
+    s = find_stmt(fn, lambda s: isinstance(s, ast.Assign) and "_current_thread_identifier" in norm(s.targets[0]))
+    return replace_node(mod, s, "if threading.current_thread().ident == self._current_thread_identifier:\n            " + norm(s))
+
+
+@variant("C32", "check-accepts-unowned-tracer", TR, "C32.ownership", "check() lets every thread run while nobody owns the tracer")
+def _v32(repo, mod):
+    fn = repo.methods(repo.cls(TR, "ExecutionTracer"))["check"]
+    s = find_stmt(fn, lambda s: isinstance(s, ast.If))
+    return replace_node(mod, s.test, "self._current_thread_identifier is not None and " + norm(s.test))
+
+
+@variant("C32", "twin-exit-guard-other-way-round", TR, None, "the same ownership test written the other way round stays silent")
+def _v33(repo, mod):
+    fn = repo.methods(repo.cls(TR, "ExecutionTracer"))["__exit__"]
+    s = find_stmt(fn, lambda s: isinstance(s, ast.If))
+    return replace_node(mod, s.test, "not (self._current_thread_identifier != threading.current_thread().ident)")
